@@ -455,7 +455,20 @@ void aggregation(vf::Ctx & c)
     const DiagnosticReport rhs = build(reps[r], r);
     const DiagnosticReport rhsCopy = rhs;
     const std::map<std::string, std::string> before = acc.info;
+    // the same append with the right operand handed over as a temporary: copying or moving the operand must not change
+    // what "appending" means (whatever the merge policy for colliding keys is, it is one policy)
+    DiagnosticReport viaTemporary = acc;
+    viaTemporary += DiagnosticReport(rhs);
     DiagnosticReport & ret = (acc += rhs);
+    {
+      bool sameDiag = viaTemporary.diagnostics.size() == acc.diagnostics.size();
+      auto i1 = viaTemporary.diagnostics.begin();
+      for (auto i2 = acc.diagnostics.begin(); sameDiag && i2 != acc.diagnostics.end(); ++i1, ++i2) {
+        sameDiag = i1->status == i2->status && i1->message == i2->message;
+      }
+      c.check(sameDiag && viaTemporary.info == acc.info,
+        vf::fmt("append#%d: appending a temporary copy of the report gives a different result than appending the report itself", r));
+    }
     const std::string w = vf::fmt("append#%d", r);
     c.check(&ret == &acc, w + ": operator+= did not return its left operand");
     for (const Diagnostic & d : rhs.diagnostics) {wantDiags.emplace_back(d.status, d.message);}
